@@ -651,6 +651,15 @@ func (ex *Exec) havocLoopComps(fr *Frame, st *State, li *loopInfo, ws *writeSet)
 	}
 }
 
+func sortedBlocks(m map[*ssa.BasicBlock]bool) []*ssa.BasicBlock {
+	var bs []*ssa.BasicBlock
+	for b := range m {
+		bs = append(bs, b)
+	}
+	sort.Slice(bs, func(i, j int) bool { return bs[i].Index < bs[j].Index })
+	return bs
+}
+
 func hasPrefix(s, p string) bool { return len(s) >= len(p) && s[:len(p)] == p }
 
 func (ex *Exec) havocComps(st *State, prefixes map[string]bool) {
@@ -713,9 +722,19 @@ func (ex *Exec) cutLoop(fr *Frame, st *State, li *loopInfo) {
 		st.cells[c] = nv
 	}
 	if ws.ghost {
-		for k := range st.ghost {
-			if hasPrefix(k, "$visited_") {
-				delete(st.ghost, k)
+		// the set of keys already produced by a range statement inside the loop
+		// is arbitrary at the header (constrained by invariants via visited())
+		for _, b := range sortedBlocks(li.blocks) {
+			for _, in := range b.Instrs {
+				if nx, ok := in.(*ssa.Next); ok {
+					if rng, ok := nx.Iter.(*ssa.Range); ok && !li.blocks[rng.Block()] {
+						gk := fmt.Sprintf("$visited_%p", rng)
+						if cur, has := st.ghost[gk]; has {
+							s := sc(cur).S
+							st.ghost[gk] = Sc{ex.vc.Fresh("visited", s), s}
+						}
+					}
+				}
 			}
 		}
 	}
